@@ -49,13 +49,18 @@ class RinexHeader(NamedTuple):
 def parser_cache(
     func: Callable[["RinexParser", _FieldStr, _FieldCache], _FieldVal],
 ) -> Callable[["RinexParser", _FieldStr], _FieldVal]:
-    """Decorator for adding a cache to parser functions"""
-    func.cache = list()  # type: ignore  # mypy is not picking up .cache
+    """Decorator for adding a cache to parser functions
+
+    The cache is the list of fields of the header lines the decorated function has already handled for the parser
+    instance at hand. It is kept on the instance (not on the function object), so that a continuation line can only
+    ever be resolved by an earlier line of the same file, never by a line of another file or another parser object.
+    """
 
     @functools.wraps(func)
     def wrapper_parser_cache(self: "RinexParser", fields: _FieldStr) -> _FieldVal:
-        value = func(self, fields, func.cache)  # type: ignore
-        func.cache.append(fields)  # type: ignore
+        cache = self.__dict__.setdefault("_parser_cache", dict()).setdefault(func.__name__, list())
+        value = func(self, fields, cache)
+        cache.append(fields)
         return value
 
     return wrapper_parser_cache
